@@ -57,10 +57,12 @@ Record case := mkCase {
   c_e : OpExpr ZK; c_U : tensor ZK; c_V : tensor ZK; c_full : nat;
   c_obs : option (list obs_slot) }.           (* None: the implementation raised *)
 
-Definition check_with (fx : fixes) (c : case) : nat :=
+(* ir = true: the tree's InterpolatedLinearOperator no longer raises for a non-square base (repaired): compare values *)
+Definition check_with (fx : fixes) (ir : bool) (c : case) : nat :=
+  let raises := negb ir && negb (c_full c =? 0) && bd_raises ZK (c_e c) in      (* mode 0: opaque nodes have no sizes *)
   match c_obs c with
   | None => if c_full c =? 0 then 0 else if bd_raises ZK (c_e c) then 0 else 5
-  | Some os => if negb (c_full c =? 0) && bd_raises ZK (c_e c) then 5      (* mode 0: opaque nodes have no sizes *)
+  | Some os => if raises then 5
                else cmp_slots (c_full c) (representation ZK (c_e c)) (alg_bd ZK fx (c_e c) (c_U c) (c_V c)) os
   end.
 
@@ -69,12 +71,12 @@ Definition all_fixes : list fixes :=
    mkFx false false true; mkFx true false true; mkFx false true true; mkFx true true true].
 
 Definition check_case (c : case) : nat :=
-  let r0 := check_with pinned c in
+  let r0 := check_with pinned false c in
   if r0 =? 0 then 0
-  else if existsb (fun fx => check_with fx c =? 0) (tl all_fixes) then 0 else r0.
+  else if existsb (fun fx => (check_with fx false c =? 0) || (check_with fx true c =? 0)) all_fixes then 0 else r0.
 
 (* which cases need a repair flag to agree (reported as information: the tree has been repaired there) *)
-Definition needs_fix (c : case) : bool := negb (check_with pinned c =? 0) && (check_case c =? 0).
+Definition needs_fix (c : case) : bool := negb (check_with pinned false c =? 0) && (check_case c =? 0).
 
 Fixpoint bad_cases (cs : list case) (i : nat) : list nat :=
   match cs with
